@@ -250,9 +250,24 @@ def search(ctx):
             # ... and at every stage of the history: queries (repeated) between pushes change nothing
             acc = Accumulator()
             order = [int(j) for j in rng.permutation(K)]
+            held = []       # what mean() / std() returned earlier: values handed out must not change when more data is pushed
+            pushed = []     # the arrays that were pushed: the accumulator must not modify them either
             for q in range(K):
-                acc.push(np.array(xs[order[q]]))
+                xin = np.array(xs[order[q]])
+                pushed.append((xin, xin.copy()))
+                acc.push(xin)
                 pref = np.array([xs[order[t]] for t in range(q + 1)])
+                for (obj, snap, what, at) in held:
+                    if not np.array_equal(np.asarray(obj), snap):
+                        ctx.violation("C18:accumulator-aliasing", "the %s returned after %d pushes changed when more data was pushed (it is the accumulator's internal array)" % (what, at),
+                                      dict(kind="acc-aliasing", what=what, pushes=at, now=q + 1, **info))
+                        held = []
+                        break
+                if any(not np.array_equal(a, b) for a, b in pushed):
+                    ctx.violation("C18:accumulator-modifies-input", "pushing further data modified an array that had been pushed before", dict(kind="acc-aliasing", now=q + 1, **info))
+                    pushed = []
+                mm, ss = acc.mean(), acc.std()
+                held += [(mm, np.array(np.asarray(mm), copy=True), "mean", q + 1), (ss, np.array(np.asarray(ss), copy=True), "standard deviation", q + 1)]
                 for rep in range(2):
                     m_, s_ = np.asarray(acc.mean()), np.asarray(acc.std())
                     if not (np.abs(m_ - pref.mean(0)).max() <= 1e-12 * scx) or not (np.abs(s_ - pref.std(0)).max() <= 1e-7 * scx):
